@@ -61,6 +61,7 @@ def step (st : DState) (line : String) : DState × String :=
   | "dbg" :: rest => (st, OciModel.Driver.Iter.drive rest)
   | "uconc" :: rest => (st, OciModel.Driver.UnifyConc.drive rest)
   | "rd" :: rest => (st, OciModel.Driver.BlobReader.drive rest)
+  | "re" :: rest => (st, OciModel.Driver.BlobReader.drive rest)   -- the last chunk arrives with io.EOF: same contract
   | "rq" :: rest => (st, OciModel.Driver.BlobReader.driveAsked rest)
   | "conc" :: rest => (st, OciModel.Driver.Conc.drive rest)
   | "authfile" :: rest =>
